@@ -4,7 +4,8 @@
    [reads] / [loop] / [step] (Proofs/C01Frame.v, Model/C01Def.v) name the pieces of Message.load. *)
 From BP Require Import Base.Prelude Model.Types Model.Varint Model.Scalar Model.Float Model.Object Model.Eq Model.Encode
      Model.Decode Model.WellFormed Model.C01Def gen.Tables.
-From BP Require Import Proofs.C01Float Proofs.C01Scalar Proofs.C01Frame Proofs.C01Step Proofs.C01Main.
+From BP Require Import Proofs.C01Float Proofs.C01Scalar Proofs.C01Frame Proofs.C01Step Proofs.C01Main Proofs.C01Stable
+     Proofs.C01Eq Proofs.C01Obs Proofs.C01Final.
 
 (* ---- layer 1: scalars.  What _preprocess_single writes for an in-range value of each of the eight varint kinds
         (enum included) is read back by load_varint + _postprocess_single as that value ... *)
@@ -79,18 +80,50 @@ Print Assumptions C01_one_record.
 
 (* ---- layer 4: whole messages — nested and recursive messages, repeated (packed and unpacked) fields, maps, oneofs,
         proto3-optional, wrappers, Timestamp / Duration.
-   For every well-formed schema and every in-range value (recursively: oneof members other than the selected one hold
-   PLACEHOLDER, _group_current names members of its own group, no unknown bytes, dict keys distinct), bytes(m) exists and
-   Cls().parse(bytes(m)) succeeds with exactly [norm_obj m].  The size hypothesis says the encoding is shorter than 2^64
-   bytes (a longer length prefix would not be read back; no Python object can reach it).
-   PARTIAL with respect to the property text: this theorem fixes WHAT is decoded; that [norm_obj m] == m, that the
-   observers agree and that it re-encodes to the same bytes are evaluated by the check on every generated case
-   (c01_holds, vm_compute) but are not yet theorems. *)
-Theorem C01_roundtrip_partial : forall sc m,
+   Hypotheses (all decidable, all evaluated on every generated case by the check):
+     c01_schema_ok sc   = wf_schema (WellFormed.v) + the first classes ARE the bundled ones + a map's Entry class is
+                          annotated like the map;
+     c01_value_ok sc m  = in_range (WellFormed.v) + recursively: a oneof member other than the selected one holds
+                          PLACEHOLDER, _group_current names members of its own group, no unknown bytes, dict keys distinct;
+     Zlength bs < 2^64  : the encoding is shorter than 2^64 bytes (a longer length prefix would not be read back; no
+                          Python object can reach it).
+   Conclusions: bytes(m) exists; Cls().parse(bytes(m)) succeeds with m' = norm_obj m; m' == m (Message.__eq__) unless a
+   NaN sits directly inside a list or as a map value (K7); which_one_of agrees for every group; every attribute of m' is
+   readable / None / a sub-message with serialized_on_wire exactly as the same attribute of m, provided m's selected or
+   non-default sub-messages carry their flag (sow_ok: what constructor / setattr / parse maintain; an all-default
+   sub-message handed to the constructor as a oneof member or optional field has the flag down and comes back with it
+   up — measured by the check); bytes(m') = bytes(m).
+   [norm_obj] is compositional (the decoded form of a nested message is the norm_obj of that nested message), so the
+   observer and equality statements hold at every nesting depth by instantiating this theorem at the nested value. *)
+Theorem C01_roundtrip : forall sc m,
   c01_schema_ok sc = true -> c01_value_ok sc m = true ->
-  exists bs, enc_obj sc m = Ok bs /\ (Zlength bs < 2 ^ 64 -> parse sc (ocls m) bs = Ok (norm_obj sc m)).
-Proof. exact c01_decode_is_norm. Qed.
-Print Assumptions C01_roundtrip_partial.
+  exists bs, enc_obj sc m = Ok bs /\
+    (Zlength bs < 2 ^ 64 ->
+     exists m', parse sc (ocls m) bs = Ok m' /\ m' = norm_obj sc m /\
+       (deep nan_free (PMsg m) = true -> obj_eq sc m m' = true) /\
+       (forall g, which_one_of m' g = which_one_of m g) /\
+       (sow_ok sc m = true -> obs_top sc m m' = true) /\
+       enc_obj sc m' = Ok bs).
+Proof. exact c01_roundtrip. Qed.
+Print Assumptions C01_roundtrip.
+
+(* the three components on their own (no size hypothesis: they are statements about norm_obj) *)
+Theorem C01_decoded_equal : forall sc m,
+  c01_schema_ok sc = true -> c01_value_ok sc m = true -> deep nan_free (PMsg m) = true ->
+  obj_eq sc m (norm_obj sc m) = true.
+Proof. exact c01_decoded_equal. Qed.
+Print Assumptions C01_decoded_equal.
+
+Theorem C01_observers_agree : forall sc m,
+  c01_schema_ok sc = true -> c01_value_ok sc m = true -> sow_ok sc m = true ->
+  obs_top sc m (norm_obj sc m) = true.
+Proof. exact c01_observers_agree. Qed.
+Print Assumptions C01_observers_agree.
+
+Theorem C01_stable : forall sc m,
+  c01_schema_ok sc = true -> c01_value_ok sc m = true -> enc_obj sc (norm_obj sc m) = enc_obj sc m.
+Proof. exact c01_reencode_stable. Qed.
+Print Assumptions C01_stable.
 
 (* ---- K7: a NaN inside a repeated field.  Everything else holds (same bytes again), == does not. *)
 Theorem C01_eq_nan_refuted :
